@@ -423,6 +423,11 @@ class UpdateCollection(Message):
         for nlri in v4_announces:
             packed = nlri.pack_nlri(negotiated)
             packed_size = len(packed)
+            if packed_size > msg_size:
+                # it cannot travel with these attributes even alone in a message: skipped (it used to open
+                # the next message unchecked, which then exceeded the negotiated size), the others are sent
+                log.critical(lazymsg('update.pack.error reason=attributes_too_large'), 'parser')
+                continue
             if announced_size + withdraws_size + packed_size <= msg_size:
                 announced += packed
                 announced_size += packed_size
@@ -443,6 +448,9 @@ class UpdateCollection(Message):
             for nlri in v4_withdraws:
                 packed = nlri.pack_nlri(negotiated)
                 packed_size = len(packed)
+                if packed_size > msg_size:
+                    log.critical(lazymsg('update.pack.error reason=attributes_too_large'), 'parser')
+                    continue
                 if announced_size + withdraws_size + packed_size <= msg_size:
                     withdraws += packed
                     withdraws_size += packed_size
